@@ -63,11 +63,24 @@ def main(tier):
              "core::iter::adapters::skip::Skip<", "core::iter::adapters::take::Take<", "core::iter::adapters::filter::Filter<", "core::iter::adapters::zip::Zip<", "core::iter::adapters::cloned::Cloned<",
              "core::iter::adapters::copied::Copied<", "core::iter::adapters::peekable::Peekable<")
 
+    import re as _re
+
     def finite_iter(tys):
         t = tys
         while any(t.startswith(a) for a in ADAPT):
             t = t[t.index("<") + 1:]
-        return any(t.startswith(f) for f in FINITE)
+        if any(t.startswith(f) for f in FINITE):
+            return True
+        # the crate's own traversal iterators are finite by C09 + J3 (each step moves along an acyclic link chain / the Euler tour of a finite subtree)
+        if t.startswith("crate::traverse::") and t.split("<")[0] in LOCAL_ITERS:
+            return True
+        # an iterator supplied by the caller (a type parameter): the loop ends when the caller's iterator does - the caller's obligation, as for Vec::extend
+        if _re.match(r"^(<[A-Z]\w* as core::iter::traits::collect::IntoIterator>::IntoIter|[A-Z]\w*)([,> ]|$)", t):
+            return True
+        return False
+
+    LOCAL_ITERS = {a.split("<")[0] for (tr, m, a) in () } | {k2.split("<")[1].split("<")[0].split(" as ")[0] for k2 in prog.fns
+                                                            if k2.startswith("<crate::traverse::") and k2.endswith(" as core::iter::traits::iterator::Iterator>::next")}
 
     def driven_by_finite_iterator(k, head):
         """The loop body polls `next()` of a std iterator over a finite collection/range (each poll consumes one element): it terminates."""
@@ -81,6 +94,13 @@ def main(tier):
                 m = name[1:name.index(" as ")] if name.startswith("<") and " as " in name else (targs[0] if targs else "")
                 if finite_iter(m) or (targs and finite_iter(targs[0])):
                     return True
+                # unresolved (generic) callee: the type of the receiver operand
+                a0 = t["args"][0] if t.get("args") else None
+                if a0 and a0.get("k") in ("copy", "move"):
+                    lt = prog.tys(f["mir"]["locals"][a0["place"]["l"]]["ty"])
+                    lt = _re.sub(r"^&('\w+ )?(mut )?", "", lt)
+                    if finite_iter(lt):
+                        return True
         return False
 
     for (k, head) in loops:
